@@ -19,6 +19,7 @@ structure St where
   g : Graph := ⟨[], []⟩
   next : Nat := 0
   names : List String := []
+  committed : Bool := false       -- `commit` seen: the database exists (before that the runner answers bad-op)
   specG : Graph := ⟨[], []⟩        -- reference result of the last statement
   trig : List String := []         -- triggers of the last statement (repeated on its dump line)
 
@@ -50,6 +51,10 @@ def uclauseOf : SExp → Option UClause
 def stmtOf : SExp → Option Stmt
   | .list [.atom "stmt", .list (.atom "reads" :: rs), .list (.atom "updates" :: us)] => do
     return ⟨← rs.mapM clauseOf, ← us.mapM uclauseOf⟩
+  | _ => none
+
+def stmtsOf : SExp → Option (List Stmt)
+  | .list (.atom "stmts" :: ss) => ss.mapM stmtOf
   | _ => none
 
 def paramsOf (t : String) : Option (List (String × Val)) :=
@@ -91,6 +96,21 @@ def namesOfStmt (s : Stmt) : List String :=
     | .set its => its.flatMap fun | .labels _ ls => ls | _ => []
     | _ => []
 
+def stepUpdate (st : St) (ps : String) (sx : List String) : St × String × String × String :=
+    if !st.committed then (st, "bad-op", "-", "") else
+    match paramsOf ps, (parse (" ".intercalate sx)).bind stmtOf with
+    | some params, some stmt =>
+      let trig := UFindings.triggers small params st.g st.names stmt
+      let (specOut, specG) := match Spec.apply small params (Update.live st.g) st.next stmt with
+        | .ok (g', _, c) => ("ok " ++ toString c.total, g')
+        | .error e => (errLine e, Update.live st.g)
+      match Update.step small params st.g st.next st.names stmt with
+      | .ok (g', next', count, names') =>
+        ({ st with g := g', next := next', names := names', specG, trig },
+          "ok " ++ toString count, specOut, " ".intercalate trig)
+      | .error e => ({ st with specG, trig }, errLine e, specOut, " ".intercalate trig)
+    | _, _ => (st, "bad-op", "-", "")
+
 def step (st : St) (ws : List String) : St × String × String × String :=
   match ws with
   | ["n", ls, ps] =>
@@ -107,25 +127,34 @@ def step (st : St) (ws : List String) : St × String × String × String :=
       ({ st with rels }, "ok", "-", "")
     | _, _, _ => (st, "bad-op", "-", "")
   | ["commit"] =>
+    -- a relationship line naming a node that does not exist makes the runner's build fail: no database
+    if st.rels.any fun e => e.id.src ≥ st.nodes.length || e.id.dst ≥ st.nodes.length then
+      ({ st with committed := false }, "err", "-", "")
+    else
     let ids := st.nodes.map fun n => toString n.id
     let g : Graph := ⟨st.nodes, st.rels⟩
     let names := (st.nodes.flatMap (·.labels) ++ st.rels.map (·.id.typ)).eraseDups
-    ({ st with g, specG := g, next := st.nodes.length, names },
+    ({ st with g, specG := g, next := st.nodes.length, names, committed := true },
       "ok " ++ (if ids.isEmpty then "-" else ",".intercalate ids), "-", "")
-  | ["dump"] => (st, dump st.g, dump st.specG, " ".intercalate st.trig)
-  | "update" :: ps :: _text :: sx =>
-    match paramsOf ps, (parse (" ".intercalate sx)).bind stmtOf with
-    | some params, some stmt =>
-      let trig := UFindings.triggers small params st.g st.names stmt
-      let (specOut, specG) := match Spec.apply small params (Update.live st.g) st.next stmt with
-        | .ok (g', _, c) => ("ok " ++ toString c.total, g')
+  | ["dump"] => if st.committed then (st, dump st.g, dump st.specG, " ".intercalate st.trig) else (st, "bad-op", "-", "")
+  | "updatet" :: ps :: _paths :: _texts :: sx =>
+    -- several statements in one write transaction against one snapshot
+    if !st.committed then (st, "bad-op", "-", "") else
+    match paramsOf ps, (parse (" ".intercalate sx)).bind stmtsOf with
+    | some params, some stmts =>
+      let trig := (stmts.flatMap fun stmt => UFindings.triggers small params st.g st.names stmt).eraseDups
+      let showCounts (cs : List Nat) : String := "ok " ++ ",".intercalate (cs.map toString)
+      let (specOut, specG) := match Spec.applyTxn small params (Update.live st.g) st.next stmts with
+        | .ok (g', _, cs) => (showCounts cs, g')
         | .error e => (errLine e, Update.live st.g)
-      match Update.step small params st.g st.next st.names stmt with
-      | .ok (g', next', count, names') =>
-        ({ st with g := g', next := next', names := names', specG, trig },
-          "ok " ++ toString count, specOut, " ".intercalate trig)
+      match Update.stepTxn small params st.g st.next st.names stmts with
+      | .ok (g', next', counts, names') =>
+        ({ st with g := g', next := next', names := names', specG, trig }, showCounts counts, specOut,
+          " ".intercalate trig)
       | .error e => ({ st with specG, trig }, errLine e, specOut, " ".intercalate trig)
     | _, _ => (st, "bad-op", "-", "")
+  | "updatew" :: ps :: _text :: sx => stepUpdate st ps sx      -- execute_write: same stages, same calls
+  | "update" :: ps :: _text :: sx => stepUpdate st ps sx
   | _ => (st, "bad-op", "-", "")
 
 def stream : Stream := { σ := St, init := {}, step := step }
